@@ -834,6 +834,7 @@ impl WorldD {
                     self.meter.flag(if success { "ack_success" } else { "ack_error" });
                 }
                 self.meter.token("ack", if success { "ok" } else { "err" }, if r.ok { "handled" } else { "failed" }, 0);
+                self.settlement_undone(&evs, &r, fault, "acknowledgement", &p_desc(packet), out);
                 self.check_state(!r.ok, out);
             }
             IbcSudo::Timeout(packet) => {
@@ -852,9 +853,33 @@ impl WorldD {
                     self.meter.flag("timeout_handled");
                 }
                 self.meter.token("timeout", "relayer", if r.ok { "handled" } else { "failed" }, 0);
+                self.settlement_undone(&evs, &r, fault, "timeout", &p_desc(packet), out);
                 self.check_state(!r.ok, out);
             }
             _ => {}
+        }
+    }
+
+    /// The relayer delivered the acknowledgement / timeout of a send and the contract's own handler accepted it,
+    /// yet the transaction was undone although nothing was injected into the contract itself (only a refund
+    /// sub-call failed): the send has failed or timed out but stays on the books as outstanding.
+    fn settlement_undone(&mut self, evs: &[Event], r: &TxResult, fault: &Option<Fault>, what: &str, pk: &str, out: &mut Vec<Violation>) {
+        if r.ok || r.aborted_outside {
+            return;
+        }
+        let injected_on_ics = fault.as_ref().map(|f| f.target == self.ics).unwrap_or(false);
+        let handler_ok = evs.iter().any(|e| matches!(e, Event::Frame(f) if f.addr == self.ics && f.entry == Entry::Sudo && f.outcome.is_ok()));
+        let ics_faulted = evs.iter().any(|e| {
+            matches!(e, Event::Frame(f) if f.addr == self.ics && matches!(f.outcome, crate::chain::Outcome::Abort | crate::chain::Outcome::FaultEarly | crate::chain::Outcome::FaultLate(_)))
+        });
+        if handler_ok && !injected_on_ics && !ics_faulted {
+            self.viol(
+                out,
+                "C12",
+                "settlement-undone-by-failed-refund",
+                json!({"event": what}),
+                format!("the {} of {} was accepted by the handler, but the transaction was undone when the refund sub-call failed: the send stays outstanding", what, pk),
+            );
         }
     }
 
@@ -1521,6 +1546,10 @@ impl WorldD {
             self.meter.hit("quiescence_books_match_remote_vouchers");
         }
     }
+}
+
+fn p_desc(p: &crate::contracts::PacketDesc) -> String {
+    format!("packet seq {} on {}", p.sequence, p.src_channel)
 }
 
 #[allow(dead_code)]
